@@ -198,44 +198,55 @@ impl SWorld {
     }
 
     pub fn check_converged(&self) -> Result<(), Violation> {
-        for comp in self.components() {
-            // read-only peers do not receive; compare only among the writable ones, and require
-            // everybody else to hold the read-only peers' changes
-            let writable: Vec<usize> = comp
-                .iter()
-                .cloned()
-                .filter(|&i| !comp.iter().any(|&j| self.states.get(&(i, j)).is_some_and(|s| s.read_only)))
-                .collect();
-            for w in writable.windows(2) {
-                let (a, b) = (w[0], w[1]);
-                if hstr(&self.docs[a].get_heads()) != hstr(&self.docs[b].get_heads()) {
-                    return Err(Violation::new(
-                        "sync-converges",
-                        "heads",
-                        format!("after fair completion peers {} and {} have heads {:?} vs {:?}", a, b, hstr(&self.docs[a].get_heads()), hstr(&self.docs[b].get_heads())),
-                    ));
-                }
-                let (oa, ob) = (obs_of(&self.docs[a]), obs_of(&self.docs[b]));
-                if let Some(d) = oa.diff(&ob) {
-                    return Err(Violation::new("sync-converges", "state", d));
+        // changes flow from i to j over a link unless j is read-only towards i (a read-only peer
+        // ignores what it receives, so it cannot relay either). flow[i][j] = i's changes can reach j.
+        let n = self.docs.len();
+        let mut flow = vec![vec![false; n]; n];
+        for i in 0..n {
+            flow[i][i] = true;
+            for j in 0..n {
+                if i != j && self.links.contains(&link(i, j)) && !self.states.get(&(j, i)).is_some_and(|s| s.read_only) {
+                    flow[i][j] = true;
                 }
             }
-            // a read-only peer's changes reach every writable peer of its component
-            for &r in comp.iter() {
-                if writable.contains(&r) {
+        }
+        for k in 0..n {
+            for i in 0..n {
+                for j in 0..n {
+                    if flow[i][k] && flow[k][j] {
+                        flow[i][j] = true;
+                    }
+                }
+            }
+        }
+        for i in 0..n {
+            for j in 0..n {
+                if i == j || !flow[i][j] {
                     continue;
                 }
-                for &w in writable.iter() {
-                    // only if a path of writable links exists; with 2-3 peers: direct link or via writable
-                    let have: BTreeSet<ChangeHash> = self.docs[w].get_changes(&[]).iter().map(|c| c.hash()).collect();
-                    for h in self.docs[r].get_heads() {
-                        if !have.contains(&h) && self.links.contains(&link(r, w)) {
-                            return Err(Violation::new(
-                                "read-only-still-sends",
-                                "heads",
-                                format!("peer {} (read-only) has head {} that linked peer {} never received", r, h, w),
-                            ));
-                        }
+                // everything i has must have reached j
+                let have: BTreeSet<ChangeHash> = self.docs[j].get_changes(&[]).iter().map(|c| c.hash()).collect();
+                for h in self.docs[i].get_heads() {
+                    if !have.contains(&h) {
+                        let ro = (0..n).any(|k| self.states.get(&(i, k)).is_some_and(|s| s.read_only));
+                        return Err(Violation::new(
+                            if ro { "read-only-still-sends" } else { "sync-converges" },
+                            "heads",
+                            format!("after fair completion peer {} has head {} that peer {} (reachable over links that accept changes) never received; heads {:?} vs {:?}", i, h, j, hstr(&self.docs[i].get_heads()), hstr(&self.docs[j].get_heads())),
+                        ));
+                    }
+                }
+                if flow[j][i] && i < j {
+                    if hstr(&self.docs[i].get_heads()) != hstr(&self.docs[j].get_heads()) {
+                        return Err(Violation::new(
+                            "sync-converges",
+                            "heads",
+                            format!("after fair completion peers {} and {} have heads {:?} vs {:?}", i, j, hstr(&self.docs[i].get_heads()), hstr(&self.docs[j].get_heads())),
+                        ));
+                    }
+                    let (oa, ob) = (obs_of(&self.docs[i]), obs_of(&self.docs[j]));
+                    if let Some(d) = oa.diff(&ob) {
+                        return Err(Violation::new("sync-converges", "state", d));
                     }
                 }
             }
